@@ -39,12 +39,15 @@ def unit_bounded_fits(tier=None, seed=0):
     r2 = FT.replay_fitter(O)
     O.oid = "C04._fit.fixed_parameters"
     r3 = FT.replay_fitter(O)
-    bad = next((x for x in (r, r2, r3) if x.get("confirmed")), None)
+    O.oid = "C04._fit.reported_expression"
+    r4 = FT.replay_fitter(O)
+    bad = next((x for x in (r, r2, r3, r4) if x.get("confirmed")), None)
     res = UnitResult(unit="bounded.real_fits")
     res.bounded.append(BoundedResult(
-        bid="C04.bounded.real_fits_consistent", ok=bad is None, evaluations=10, distinct=10,
+        bid="C04.bounded.real_fits_consistent", ok=bad is None, evaluations=18, distinct=18,
         bound="recorded curve x k in {1, 0.5} x weighting on/off (columns vs model(reported parameters), weighted "
-              "residuals, chi-square, xmin/xmax), unsuccessful fits (absolute and relative cp), fixed contact point",
+              "residuals, chi-square, xmin/xmax), unsuccessful fits (absolute and relative cp), fixed contact point, "
+              "expression-constrained contact point / baseline x k x (absolute, relative cp)",
         detail="consistent" if bad is None else str(bad)[:300], samples=[{"k": 0.5, "weight_cp": 5e-7}],
         failing_input=bad, witness="" if bad is None else "real_fit", time_s=round(time.time() - t0, 2)))
     return res
@@ -73,6 +76,10 @@ def units(tier):
     us = FT.units_for("C04") + [Unit("residual", resid.unit_residual, prop="C04"),
                                 Unit("weights", resid.unit_weights, prop="C04"),
                                 Unit("bounded.real_fits", unit_bounded_fits)]
+    # "... instead of stale numbers": what is reported belongs to the stored settings only if every changed setting
+    # (incl. bounds of the initial parameters) drops the results (contract shared with C03)
+    from . import c03
+    us.append(Unit("FitProperties.__setitem__", c03.unit_setitem, prop="C04"))
     if tier == "thorough" and not os.environ.get("VF_NO_CANARIES") and str(REPO) == "/repo":
         us.append(Unit("selftest.canaries", unit_canaries))
     return us
